@@ -68,6 +68,26 @@ fn main() {
     std::panic::set_hook(Box::new(|_| {}));
     if ctx.build.contains("scalar") { encoding_rs::verif::force_scalar_utf8_validation(true); }
     if ctx.mode == Mode::Miri { encoding_rs::verif::force_scalar_utf8_validation(true); }
+    // Watchdog: a call into the crate that never returns cannot be interrupted, so a helper thread watches the case
+    // counter. No progress for a very long time (cases normally take microseconds) ends the process with exit code 96;
+    // bin/check reports that as INCONCLUSIVE (a wall-clock observation is never turned into a violation) and does not
+    // let the check pass.
+    {
+        let limit: u64 = std::env::var("ERV_WATCHDOG_S").ok().and_then(|v| v.parse().ok()).unwrap_or(if ctx.mode == Mode::Native { 120 } else { 900 });
+        let (p, t, sd, sh, n) = (prop.clone(), if ctx.thorough() { "thorough" } else { "quick" }, ctx.seed, ctx.shard, ctx.nshards);
+        std::thread::spawn(move || {
+            let mut last = u64::MAX; let mut since = std::time::Instant::now();
+            loop {
+                std::thread::sleep(std::time::Duration::from_secs(5));
+                let cur = ev::PROGRESS.load(std::sync::atomic::Ordering::Relaxed);
+                if cur != last { last = cur; since = std::time::Instant::now(); continue; }
+                if since.elapsed().as_secs() >= limit {
+                    println!("WATCHDOG no case finished for {} s after case {} ({} {} seed {} shard {}/{}): a call into the crate may not return; replay the following cases with --only-case", limit, cur, p, t, sd, sh, n);
+                    std::process::exit(96);
+                }
+            }
+        });
+    }
     let mut ev = Ev::new(ctx.clone());
     match prop.as_str() {
         "selftest" => selftest::run(&ctx, &mut ev),
